@@ -7,6 +7,7 @@ import (
 	"io/fs"
 	"sort"
 	"strings"
+	"sync"
 	"testing/fstest"
 	"time"
 
@@ -16,15 +17,31 @@ import (
 var bg = context.Background()
 
 // renderStr renders a string template through Template.RenderString.
+// Without options it goes through one long-lived base template per worker
+// process (New() per call, as the API prescribes), so that whatever the engine
+// keeps between renders - compiled expressions, parsed paths, pools - is
+// shared by all cases of a check: a result that depends on what was rendered
+// before shows up as a violation of the property being checked.
 func renderStr(tpl string, data any, opts ...vuego.LoadOption) (string, error) {
 	var b bytes.Buffer
-	t := vuego.New(opts...)
+	var t vuego.Template
+	if len(opts) == 0 {
+		sharedBaseOnce.Do(func() { sharedBase = vuego.New() })
+		t = sharedBase.New()
+	} else {
+		t = vuego.New(opts...)
+	}
 	if data != nil {
 		t = t.Fill(data)
 	}
 	err := t.RenderString(bg, &b, tpl)
 	return b.String(), err
 }
+
+var (
+	sharedBase     vuego.Template
+	sharedBaseOnce sync.Once
+)
 
 // memFS builds an in-memory filesystem; every file gets the given mtime base.
 func memFS(files map[string]string) fstest.MapFS {
